@@ -11,9 +11,9 @@ import core
 from core import HarnessError, log
 
 CRIT_CFG = 'SPECIFICATION Spec\nCONSTANTS MaxRects = %d XMax = %d Heights = {1,2} Mode = "criterion"\nINVARIANTS Unique NoShorterInside\nCHECK_DEADLOCK FALSE\n'
-FUN_CFG = ('SPECIFICATION Spec\nCONSTANTS MaxRects = %d XMax = %d Heights = %s\nINVARIANTS TriangulationTiles TriangleCount EveryPointCovered '
+FUN_CFG = ('SPECIFICATION Spec\nCONSTANTS MaxRects = %d XMax = %d Heights = %s XShift = %d YShift = %d\nINVARIANTS TriangulationTiles TriangleCount EveryPointCovered '
            'DualIsTree Returns EndToStart IsShortest DequeFits PolygonIsOutline CornersOnOutline\nCHECK_DEADLOCK FALSE\n')
-FUN_GOAL_CFG = 'SPECIFICATION Spec\nCONSTANTS MaxRects = 3 XMax = 3 Heights = {2}\nINVARIANTS %s\nCHECK_DEADLOCK FALSE\n'
+FUN_GOAL_CFG = 'SPECIFICATION Spec\nCONSTANTS MaxRects = 3 XMax = 3 Heights = {2} XShift = 0 YShift = 0\nINVARIANTS %s\nCHECK_DEADLOCK FALSE\n'
 FIT_CFG = 'SPECIFICATION FSpec\nCONSTANTS MaxPath = %d\nINVARIANTS NeverBad TilesWhenDone\nPROPERTIES Termination Decreases\nCHECK_DEADLOCK FALSE\n'
 # GeomTrace extends three modules with constants: they are irrelevant for trace validation but must be bound
 TRACE_CFG = 'SPECIFICATION TraceSpec\nCONSTANTS Props = {"%s"}\nPOSTCONDITION TraceAccepted\nCHECK_DEADLOCK FALSE\n'
@@ -45,6 +45,44 @@ def lattice(rect, den=1):
 
 
 def corridor_cases(tier, rng, kind):
+    """the families below, and every eighth of their members once more TRANSLATED: a door corner (where geodesics bend), a
+    rectangle corner or an end point is moved to the origin - the zero value of the library's point type, which a map lookup
+    or an uninitialised variable yields as well - or the corridor is moved to negative coordinates altogether"""
+    trng = random.Random(rng.random())
+    n = 0
+    for c in _corridor_cases(tier, rng, kind):
+        yield c
+        n += 1
+        if n % 8:
+            continue
+        rs = c["rects"]
+        anchors = []
+        for t in range(len(rs) - 1):
+            a, b = max(rs[t][0], rs[t + 1][0]), min(rs[t][2], rs[t + 1][2])
+            if rs[t][0] != rs[t + 1][0]:
+                anchors.append((a, rs[t][3]))
+            if rs[t][2] != rs[t + 1][2]:
+                anchors.append((b, rs[t][3]))
+        mode = trng.random()
+        if anchors and mode < 0.6:
+            ax, ay = trng.choice(anchors)
+        elif mode < 0.75:
+            r = trng.choice(rs)
+            ax, ay = trng.choice([(r[0], r[1]), (r[2], r[1]), (r[0], r[3]), (r[2], r[3])])
+        elif mode < 0.85:
+            ax, ay = trng.choice([c["s"], c["e"]])
+        else:
+            ax, ay = rs[-1][2] + trng.randint(0, 5) * c["den"], rs[-1][3] + trng.randint(0, 5) * c["den"]
+        if c["den"] not in (1, 2):
+            # keep whole units whole (the exact layer-3 prediction applies to whole units on a decimal grid)
+            ax, ay = ax - ax % c["den"], ay - ay % c["den"]
+            if mode < 0.75 and (ax, ay) not in anchors:
+                continue
+        yield dict(c, rects=[[r[0] - ax, r[1] - ay, r[2] - ax, r[3] - ay] for r in rs], s=[c["s"][0] - ax, c["s"][1] - ay],
+                   e=[c["e"][0] - ax, c["e"][1] - ay])
+
+
+def _corridor_cases(tier, rng, kind):
     """every TLC-generated corridor x lattice start points of the first and end points of the last rectangle
     (all of them for small corridors, a sample otherwise), plus half-unit points (den = 2), plus random larger corridors"""
     cors = [c["rects"] for c in core.load_gen("COR3")]
@@ -450,12 +488,16 @@ def c19_check(prop, tier, seed, replay):
         models = [dict(name="Corridor.tla criterion (Unique, NoShorterInside), MaxRects=%d XMax=%d" % (a, b), **{k: r[k] for k in ("generated", "distinct", "wall", "ok")})]
         # layer 3: the transcription of geom.Shortest (FunnelOps: triangulation, dual graph, crossed diagonals, funnel over the
         # fixed-capacity deque) explored on every corridor x every pair of lattice end points of a small bound
-        fa, fb, fh_ = (3, 3, "{2}") if tier == "quick" else (3, 4, "{1,2}")
-        r = core.run_tlc(work, "Funnel", "Funnel.tla", FUN_CFG % (fa, fb, fh_), workers=core.NCPU, tag="funnel", timeout=6000)
-        if not r["ok"]:
-            raise HarnessError("Funnel.tla: the transcribed design of geom.Shortest fails at small scope (a model finding, not a verdict on the code):\n" + r["out"][-3000:])
-        models.append(dict(name="Funnel.tla (FunnelOps: TriangulationTiles, TriangleCount, EveryPointCovered, DualIsTree, Returns, EndToStart, IsShortest, DequeFits, PolygonIsOutline, CornersOnOutline), "
-                                "MaxRects=%d XMax=%d Heights=%s" % (fa, fb, fh_), **{k: r[k] for k in ("generated", "distinct", "wall", "ok")}))
+        # (measured: 3 rectangles on a 4-column grid, one height: 11 025 states, 20 s; two heights: 54 575 states, 35 s; 4 rectangles
+        # on a 3-column grid: 20 s; 3 rectangles on a 5-column grid: > 1.2 M states, not finished in 20 min)
+        # the second configuration puts the corridor across the origin (x from -2, top at -2): door corners at (0, 0)
+        bounds = [(3, 3, "{2}", 0, 0), (2, 3, "{2}", 2, 2)] if tier == "quick" else [(3, 3, "{1,2}", 0, 0), (4, 2, "{2}", 0, 0), (3, 3, "{2}", 2, 2)]
+        for fi, (fa, fb, fh_, xo, yo) in enumerate(bounds):
+            r = core.run_tlc(work, "Funnel", "Funnel.tla", FUN_CFG % (fa, fb, fh_, xo, yo), workers=core.NCPU, tag="funnel%d" % fi, timeout=6000)
+            if not r["ok"]:
+                raise HarnessError("Funnel.tla: the transcribed design of geom.Shortest fails at small scope (a model finding, not a verdict on the code):\n" + r["out"][-3000:])
+            models.append(dict(name="Funnel.tla (FunnelOps: TriangulationTiles, TriangleCount, EveryPointCovered, DualIsTree, Returns, EndToStart, IsShortest, DequeFits, PolygonIsOutline, CornersOnOutline), "
+                                    "MaxRects=%d XMax=%d Heights=%s shifted by (-%d,-%d)" % (fa, fb, fh_, xo, yo), **{k: r[k] for k in ("generated", "distinct", "wall", "ok")}))
         for goal in ("GoalBend", "GoalTrim"):
             g = core.run_tlc(work, "Funnel", "Funnel.tla", FUN_GOAL_CFG % goal, workers=4, tag="funnel-" + goal, timeout=3000)
             if g["ok"] or not g.get("violated"):
